@@ -30,11 +30,13 @@ var wireIncomplete int64
 
 // listenLoopback retries: under 16 parallel shards the ephemeral port range can
 // be momentarily exhausted by sockets in TIME_WAIT - infrastructure, not martian.
-func listenLoopback() (net.Listener, error) {
+func listenLoopback() (net.Listener, error) { return listenOn("127.0.0.1:0") }
+
+func listenOn(addr string) (net.Listener, error) {
 	var err error
 	for i := 0; i < 40; i++ {
 		var ln net.Listener
-		if ln, err = net.Listen("tcp", "127.0.0.1:0"); err == nil {
+		if ln, err = net.Listen("tcp", addr); err == nil {
 			return ln, nil
 		}
 		time.Sleep(50 * time.Millisecond)
@@ -232,7 +234,9 @@ func statusOf(startLine string) int {
 var notAssertedOnWire = map[string]bool{"Connection": true, "Transfer-Encoding": true, "Trailer": true}
 
 // addedByTransport: net/http's client side adds these when absent.
-var addedByTransport = map[string]bool{"Host": true, "User-Agent": true, "Accept-Encoding": true, "Content-Length": true}
+// (martian's transport has DisableCompression, so no Accept-Encoding; a
+// default User-Agent has its own clause below.)
+var addedByTransport = map[string]bool{"Host": true, "Content-Length": true}
 
 func wireRequest(c Case, subst func(string) string) []byte {
 	var sb strings.Builder
@@ -288,9 +292,19 @@ func runWire(c Case) kit.Verdict {
 	p.SetTimeout(60 * time.Second)
 	originAddr := o.ln.Addr().String()
 	p.SetDial(func(network, addr string) (net.Conn, error) { return dialLoopback(originAddr, wait) })
-	pl, err := listenLoopback()
-	if err != nil {
-		return noPort(err)
+	// the client reaches the proxy over IPv6 when the case says so and the
+	// machine has ::1 (else over IPv4; the expectation follows what is used)
+	clientIP := "127.0.0.1"
+	var pl net.Listener
+	if strings.HasPrefix(c.Remote, "[") {
+		if l6, err6 := net.Listen("tcp", "[::1]:0"); err6 == nil {
+			pl, clientIP = l6, "::1"
+		}
+	}
+	if pl == nil {
+		if pl, err = listenLoopback(); err != nil {
+			return noPort(err)
+		}
 	}
 	go p.Serve(pl)
 	defer func() {
@@ -366,11 +380,20 @@ func runWire(c Case) kit.Verdict {
 	if c.UserInfo != "" {
 		tolerated["Authorization"] = true // net/http's client derives it from the URL's credentials when absent
 	}
+	if _, sent := m.in["User-Agent"]; !sent {
+		// "every other header is untouched": the origin must not receive a
+		// User-Agent the client never sent (the proxy installs the transport that
+		// would add "Go-http-client/1.1")
+		tolerated["User-Agent"] = true
+		if ua, ok := oh["User-Agent"]; ok {
+			v.Addf("C14/end-to-end/request-without-user-agent/user-agent-added", "the client sent no User-Agent, the origin received %q", ua)
+		}
+	}
 	checkHeaders("request", m.in, oh, m.hop, managedReq, tolerated, &v)
 	_, maj, min := protoOf(c)
-	checkChain("via", "Via at origin", m.in["Via"], oh["Via"], fmt.Sprintf("%d.%d %s", maj, min, self), &v)
+	checkVia(m, oh["Via"], fmt.Sprintf("%d.%d %s", maj, min, self), self, " at origin", &v)
 	u := c.originalURL("http")
-	checkForwarded(m, oh, " at origin", "127.0.0.1", "http", c.URLHost, u, &v)
+	checkForwarded(m, oh, " at origin", clientIP, "http", c.URLHost, u, &v)
 
 	// response side, as seen by the client
 	if status != c.Status {
@@ -402,7 +425,7 @@ func genWire(t *rapid.T) Case {
 	c.Scheme = "http"
 	c.URLHost = rapid.SampledFrom([]string{"origin.test", "origin.test:8080", "example.com"}).Draw(t, "url_host")
 	c.Host = c.URLHost
-	c.Remote = "127.0.0.1:0"
+	c.Remote = rapid.SampledFrom([]string{"127.0.0.1:0", "127.0.0.1:0", "[::1]:0"}).Draw(t, "remote")
 	genTarget(t, &c)
 	c.Status = rapid.SampledFrom([]int{200, 200, 404, 500}).Draw(t, "status")
 	c.Body = rapid.IntRange(0, 300).Draw(t, "body")
@@ -420,7 +443,7 @@ var propWire = &kit.Prop[Case]{
 	ID: "C14", Name: "wire",
 	Rule: "the same header shapes written as raw bytes (names in drawn case, drawn padding) by a TCP client through martian.NewProxy carrying the stack to a raw TCP origin that logs the header block it receives; origin-side and client-side header blocks compared with the model (Connection, Transfer-Encoding, Trailer not asserted: net/http regenerates them per hop; no framing conflicts: net/http rejects them before the stack); non-trivial as for the in-process check",
 	Gen:  genWire, Run: runWire, NonTrivial: nontrivial, Classes: classes,
-	Gates:   map[string]float64{"nontrivial": 0.5, "via-self": 0.1, "via-multi-line": 0.15, "conn-nominates-present-ext": 0.1, "conn-nominates-x-forwarded": 0.1},
+	Gates:   map[string]float64{"nontrivial": 0.5, "via-self": 0.1, "via-multi-line": 0.15, "conn-nominates-present-ext": 0.1, "conn-nominates-x-forwarded": 0.1, "remote-v6": 0.15},
 	Journal: true,
 }
 
